@@ -91,10 +91,11 @@ def cases(ctx):
     # key components
     rng = ctx.rng('keys')
     for j in range((320 if ctx.tier == 'quick' else 4000) // ctx.nshards + 1):
-        size = rng.choice([16, 16, 24])
+        size = rng.choice([8, 16, 16, 24])
         parts = [rng.randbytes(size).hex() for _ in range(rng.randint(2, 5))]
         if rng.random() < 0.3:
-            parts[0] = ('0' * rng.choice([1, 2, 15, 16])) + parts[0][rng.choice([1, 2, 15, 16]):]
+            z = rng.choice([1, 2, 15, 16])
+            parts[0] = ('0' * z) + parts[0][z:]
             parts[0] = parts[0][:2 * size].ljust(2 * size, '0')
         yield {'kind': 'keys', 'parts': parts, 'master': rng.randbytes(rng.choice([16, 24])).hex(),
                'upper': rng.random() < 0.3}
@@ -252,6 +253,8 @@ def require(m):
         reasons.append('PIN lengths 4..12 not all driven')
     if set(m['classes'].get('key indexes', ())) != set(range(10)):
         reasons.append('key indexes 0..9 not all driven')
+    if set(m['classes'].get('component sizes', ())) != {8, 16, 24} and not m['violations']:
+        reasons.append('component sizes 8, 16 and 24 bytes not all driven')
     if not m['counters'].get('permutations judged'):
         reasons.append('no component permutation judged')
     return reasons
